@@ -72,13 +72,14 @@ def generate(src, die, coq_str):
         L.append("Definition cb_host_prefix_text : list N := %s." % _bytes(_unescape_rust(fm[0])))
     except ValueError:
         die("c20: unexpected escape in the hostname prefix")
-    m = re.search(r'let scheme_part = if v(.*?)unreachable!', cb, re.S)
+    NOSCHEME = r'return Err\(CbRuleCreationFailure::NoSupportedNetworkOptions\(v\.mask\)\);'
+    m = re.search(r'let scheme_part = if v(.*?)' + NOSCHEME, cb, re.S)
     if not m:
         die("c20: scheme_part chain not recognised")
     sp = re.findall(r'"([^"]*)"', m.group(1))
     if len(sp) != 4 or sp[0] != "":
         die("c20: scheme_part strings not recognised: %r" % sp)
-    m = re.search(r'\(crate::filters::network::FilterPart::Empty, None\) => if v(.*?)unreachable!', cb, re.S)
+    m = re.search(r'\(crate::filters::network::FilterPart::Empty, None\) => if v(.*?)' + NOSCHEME, cb, re.S)
     if not m:
         die("c20: empty-filter scheme chain not recognised")
     se = re.findall(r'"([^"]*)"', m.group(1))
@@ -93,6 +94,11 @@ def generate(src, die, coq_str):
     if not m or not m2 or m.group(1) != m2.group(1):
         die("c20: match-everything url-filter constant not recognised")
     L.append("Definition cb_match_all_text : list N := %s." % _bytes(m.group(1)))
+    m3 = re.search(r'let url_filter = if url_filter\.is_empty\(\) \{\s*"([^"]*)"\.to_string\(\)\s*\} else \{\s*url_filter\s*\};', cb)
+    if not m3 or m3.group(1) != m.group(1):
+        die("c20: replacement of an empty url-filter not recognised")
+    if "unreachable!" in cb:
+        die("c20: unreachable!() is back in content_blocking.rs")
     if len(re.findall(r'url_filter \+= "\$";', cb)) != 2 or len(re.findall(r'url_filter \+= "\.\*";', cb)) != 1:
         die("c20: right-anchor / hostname-regex suffixes not recognised")
     if not re.search(r'collection\.push\(format!\("\*\{\}", normalized_domain\)\);', cb):
